@@ -482,6 +482,7 @@ class Simulator:
                     except Exception as e:  # noqa: BLE001 - recorded and compared with the reference
                         status = "raised"
                         dig = f"{type(e).__name__}"
+                        leaves = f"{type(e).__name__}: {str(e)[:300]}"  # message only (reported, never compared)
                     finally:
                         c.in_op = False
                         c.atomic = False
